@@ -389,8 +389,10 @@ impl M2Model {
             return Ok(Vec::new());
         }
 
+        // The view count is untrusted: every view needs its 44-byte record in the file, so the
+        // data bounds what is reserved up front
         let count = self.header.views.count as usize;
-        let mut skins = Vec::with_capacity(count);
+        let mut skins = Vec::with_capacity(count.min(original_m2_data.len() / 44));
 
         for i in 0..count {
             skins.push(self.parse_embedded_skin(original_m2_data, i)?);
